@@ -113,6 +113,10 @@ type RecTransport struct {
 	// support deadlines); clearing the deadline (zero time) succeeds.
 	DeadlineErr error
 
+	// SnapshotVec: take a private copy of the vector (the slice of slices, not the bytes) at entry, before any delay - a
+	// vectored write that has set up its iovecs and then waits for socket space reads the memory they point to later.
+	SnapshotVec bool
+
 	// CloseErr is returned by the Close call that actually closes (a transport may report a failed goodbye,
 	// e.g. TLS close_notify on a broken pipe, and still be closed).
 	CloseErr error
@@ -159,6 +163,9 @@ func (t *RecTransport) write(kind string, bufs [][]byte) (int64, error) {
 		t.mu.Lock()
 		entryArmed = !t.wdl.IsZero()
 		t.mu.Unlock()
+	}
+	if t.SnapshotVec {
+		bufs = append([][]byte(nil), bufs...)
 	}
 	if cb := t.OnOp; cb != nil {
 		cb(kind, 0)
